@@ -43,7 +43,10 @@ def setup(n, p0):
     return dict(flipped=flipped, p=p, q=q, m=m, p1=p1, x_m=x_m, x_l=x_l, x_r=x_r, c=c, p2=p2, p3=p3, p4=p4, pmf=pmf)
 
 
-def main(out):
+MAXA = 14
+
+
+def build_rows():
     rows = []
     for ci, (n, p0) in enumerate(CASES):
         s = setup(n, p0)
@@ -64,9 +67,9 @@ def main(out):
                     continue
                 r2.append((j, y, A))
         # spread: at most 14 anchors, evenly over the candidates (both sides of the mode, near and far)
-        if len(r2) > 14:
-            step = len(r2) / 14.0
-            r2 = [r2[int(i * step)] for i in range(14)]
+        if len(r2) > MAXA:
+            step = len(r2) / float(MAXA)
+            r2 = [r2[int(i * step)] for i in range(MAXA)]
         for j in (J // 97, J // 41, J // 23):
             phi = mpf(j) / J; u = phi * s['p4']
             if u <= s['p1'] * mpf('0.98'):
@@ -119,6 +122,15 @@ def main(out):
         a1 = ',\n      '.join('[w1 |-> "%d", js |-> <<%s>>]' % (j << 50, ', '.join('[j |-> %d, cnt |-> %s]' % (yy, l14(floor(fr * 2 ** 64))) for yy, fr in js)) for (j, js) in r1)
         rows.append('  [id |-> %d, n |-> %d, p |-> "%s", flipped |-> %s, m |-> %d,\n   r2 |-> <<\n      %s>>,\n   r1 |-> <<\n      %s>>,\n   rt |-> <<\n      %s>>]' % (
             ci + 1, n, repr(float(p0)), 'TRUE' if s['flipped'] else 'FALSE', s['m'], a2, a1, at))
+    return rows
+
+
+def main(out):
+    global CASES, MAXA
+    rows_quick = build_rows()
+    CASES = CASES + [(250, 0.5), (10000, 0.25), (2000, 0.875), (33, 0.4375), (100000, 0.03125), (512, 0.5)]
+    MAXA = 40
+    rows_thorough = build_rows()
     text = '''----------------------------- MODULE BtpeTable -----------------------------
 (***************************************************************************)
 (* GENERATED by tools/gen_btpe_table.py (mpmath, 50 digits) - do not edit. *)
@@ -129,10 +141,14 @@ def main(out):
 BTab == <<
 %s
 >>
+
+BTabT == <<
+%s
+>>
 =============================================================================
-''' % ',\n'.join(rows)
+''' % (',\n'.join(rows_quick), ',\n'.join(rows_thorough))
     open(out, 'w').write(text)
-    print('wrote', out, [(len(r)) for r in rows])
+    print('wrote', out, len(rows_quick), len(rows_thorough))
 
 
 if __name__ == '__main__':
